@@ -866,6 +866,68 @@ class Explorer:
     def note(self, *a):
         self.log.append(a)
 
+    def _concolic_fallback(self, u, models=3):
+        """the abstract domain cannot follow this path any further: hand the inputs of the path, concretised by the solver (up to
+        `models` different models of the path condition), to the harness's replay on the real code.  A replay that shows a violation
+        is a solver-produced, reproduced counterexample; anything else leaves the obligation inconclusive."""
+        fb = self.fallback
+        if fb is None or getattr(self, 'n_candidates', 0) >= 12:
+            return
+        replay, key, what = fb
+        ints = [v for _, v in self.named if z3.is_int(v)]
+
+        def emit():
+            try:
+                self.model = None
+                self.current_model()
+                rp = replay() if callable(replay) else replay
+            except ControlFlow:
+                return False
+            except Exception:
+                return False
+            if not rp:
+                return False
+            self.results.append(('candidate', Violation('unsupported operation (%s); inputs of the path concretised by the solver and run on the real code' % (str(u)[:80],),
+                                                         {'key': key, 'replay': rp})))
+            self.n_candidates = getattr(self, 'n_candidates', 0) + 1
+            return True
+
+        def extreme(hi):
+            """a model in which the declared inputs are pushed, one after the other, to the low / high end of their declared range"""
+            self.solver.push()
+            try:
+                for v in ints[:24]:
+                    b = BOUNDS.get(str(v))
+                    if not b:
+                        continue
+                    for val in ((b[1], b[1] - 1) if hi else (b[0], b[0] + 1)):
+                        try:
+                            if self._check(v == val):
+                                self.solver.add(v == val)
+                                break
+                        except Inconclusive:
+                            break
+                return emit()
+            finally:
+                self.solver.pop()
+        try:
+            if not emit() or not callable(replay):
+                return
+            extreme(False)
+            extreme(True)
+            if models > 3:
+                m = self.model
+                diff = [v != m.eval(v, model_completion=True) for v in ints]
+                if diff:
+                    self.solver.push()
+                    self.solver.add(z3.Or(*diff))
+                    emit()
+                    self.solver.pop()
+        except Inconclusive:
+            pass
+        finally:
+            self.model = None
+
     # -- driver
     def explore(self, fn):
         """run fn() once per feasible path.  fn returns normally (path ok) or raises."""
@@ -896,6 +958,7 @@ class Explorer:
                 self.named = []
                 self.counters = {}
                 self.log = []
+                self.fallback = None
                 FUEL.left = None            # a loop budget never leaks from one path (or one obligation in the same worker) into the next
                 self.solver.push()
                 CUR = self
@@ -917,6 +980,7 @@ class Explorer:
                     except Unsupported as u:
                         self.results.append(('unsupported', str(u)))
                         self.inconclusive = 'unsupported: %s' % (u,)
+                        self._concolic_fallback(u)
                     except OutOfFuel as u:
                         self.results.append(('fuel', u))
                         if self.stop_on_violation:
@@ -962,6 +1026,11 @@ def require(cond, msg, **detail):
 
 def ev(x):
     return cur().ev(x)
+
+
+def set_fallback(replay, key, what='code under test'):
+    """harness: from here on the inputs of the path are declared; `replay` (evaluated under a model) describes them for a concrete run"""
+    cur().fallback = (replay, key, what)
 
 
 def note(*a):
